@@ -6,4 +6,5 @@ INVARIANT InvPrefix
 INVARIANT InvFailIsLast
 INVARIANT InvFailReported
 PROPERTY AfterFailNoWrite
+PROPERTY Termination
 CHECK_DEADLOCK FALSE
